@@ -490,6 +490,12 @@ func (c *candidateBase) TypePreference() uint16 {
 			tcpPriorityOffset = c.agent().tcpPriorityOffset
 		}
 
+		// Saturate at zero: an offset larger than the type preference must not
+		// wrap around uint16 (which would push the priority above 2^31-1).
+		if tcpPriorityOffset > pref {
+			return 0
+		}
+
 		pref -= tcpPriorityOffset
 	}
 
